@@ -85,6 +85,8 @@ class Mod:
                 names.split_tuple_assign(self.tree)
                 names.split_return_ifexp(self.tree)
                 names.split_default_ifexp(self.tree)
+                names.unguard_continue(self.tree)
+                names.unroll_fold_helpers(self.tree, rel)
                 self.inlined = names.inline_new_helpers(self.tree, rel)
                 if self.inlined:
                     _nm.canon_consts(self.tree)
